@@ -3,13 +3,103 @@
 //! `fetch head=H synced=<ranges> limit=N` : the private `calculate_range_to_fetch` (hook)
 //! `batch head=H stored=<ranges> pruned=<ranges> limit=N` : `pruned + &stored` as in
 //!     `Worker::fetch_next_batch`, then the same function.
+//! `worker head=H stored=<ranges> pruned=<ranges> limit=N` : the REAL syncer `Worker` (hook
+//!     `verif::syncer::worker`, not spawned) on a real `InMemoryStore` holding an honest chain with
+//!     exactly these stored / pruned heights: the real `fetch_next_batch` (all gates), then the real
+//!     `Store::insert` of the honest headers of the requested batch.
 use std::ops::RangeInclusive;
+use std::sync::Arc;
+use std::time::Duration;
 
+use celestia_types::ExtendedHeader;
+use celestia_types::test_utils::ExtendedHeaderGenerator;
 use lumina_node::block_ranges::{BlockRange, BlockRanges};
+use lumina_node::store::{InMemoryStore, Store};
+use lumina_node::verif::p2p::mocked_p2p;
 use lumina_node::verif::syncer as hook;
+use tendermint::Time;
 use verif_harness::*;
 
-struct C24;
+/// length of the honest chain behind the `worker` op
+const CHAIN: u64 = 16;
+
+struct C24 {
+    rt: tokio::runtime::Runtime,
+    pool: Vec<ExtendedHeader>,
+}
+
+impl C24 {
+    fn new() -> Self {
+        let rt = tokio::runtime::Builder::new_current_thread().enable_time().build().unwrap();
+        let mut generator = ExtendedHeaderGenerator::new();
+        // every header is a few minutes old: inside any sampling window used below
+        let first = (Time::now() - Duration::from_secs(3600)).unwrap();
+        generator.set_time(first, Duration::from_secs(1));
+        let pool = generator.next_many_empty(CHAIN);
+        C24 { rt, pool }
+    }
+
+    fn span(&self, a: u64, b: u64) -> Option<Vec<ExtendedHeader>> {
+        if a >= 1 && a <= b && b <= CHAIN { Some(self.pool[(a - 1) as usize..b as usize].to_vec()) } else { None }
+    }
+
+    fn worker(&self, head: u64, stored: Vec<BlockRange>, pruned: Vec<BlockRange>, limit: u64) -> String {
+        let (Ok(st), Ok(pr)) = (BlockRanges::from_vec(stored.into_iter().collect()), BlockRanges::from_vec(pruned.into_iter().collect()))
+        else {
+            return "load-err".into();
+        };
+        let all = st.clone() + &pr;
+        self.rt.block_on(async {
+            let (p2p, handle) = mocked_p2p();
+            let store = Arc::new(InMemoryStore::new());
+            // build the store: insert every synced range (each one a new HEAD range), then prune
+            for r in all.as_ref() {
+                let Some(span) = self.span(*r.start(), *r.end()) else { return "bad-op".to_string() };
+                if store.insert(span).await.is_err() {
+                    return "setup-insert-failed".to_string();
+                }
+            }
+            for r in pr.as_ref() {
+                for h in r.clone() {
+                    if store.remove_height(h).await.is_err() {
+                        return "setup-prune-failed".to_string();
+                    }
+                }
+            }
+            let (got_st, got_pr) = (store.get_stored_header_ranges().await.unwrap(), store.get_pruned_ranges().await.unwrap());
+            if got_st != st || got_pr != pr {
+                return format!("setup-mismatch st={got_st} pr={got_pr}");
+            }
+            let (mut w, _events) = hook::worker(
+                &p2p,
+                store.clone(),
+                limit,
+                Duration::from_secs(30 * 24 * 3600),
+                Duration::from_secs(31 * 24 * 3600),
+            );
+            w.set_subjective_head_height(head);
+            handle.set_peers(1, 1);
+            if let Err(e) = w.fetch_next_batch().await {
+                return format!("fatal {e}");
+            }
+            let res = match w.ongoing() {
+                None => "none".to_string(),
+                Some((a, b)) => {
+                    let ins = match self.span(a, b) {
+                        Some(span) => match store.insert(span).await {
+                            Ok(()) => "ok",
+                            Err(_) => "err",
+                        },
+                        None => "na",
+                    };
+                    format!("req {a}-{b} insert={ins}")
+                }
+            };
+            w.cancel_ongoing();
+            res
+        })
+    }
+}
 
 fn parse_ranges(s: &str) -> Option<Vec<BlockRange>> {
     if s == "-" || s.is_empty() {
@@ -68,7 +158,9 @@ impl Prop for C24 {
          empty/full/alternating in quick) x every head 0..13 x every batch size 0..13; the same through \
          `pruned + stored` with the subset split into stored/pruned parts; random values of 0..4 ranges at \
          1, mid-u64 and ending at u64::MAX with heads at/around every boundary and u64::MAX and batch sizes \
-         0, 1, small, 512, u64::MAX. Non-trivial = synced non-empty and limit > 0; distinct = distinct \
+         0, 1, small, 512, u64::MAX; the REAL Worker::fetch_next_batch + real InMemoryStore::insert of the \
+         requested batch on an honest 16-header chain with the subset split into stored / pruned heights. \
+         The store-ahead-of-head situation (where the one known finding lives) is sampled at ~1/40. Non-trivial = synced non-empty and limit > 0; distinct = distinct \
          (op, result)."
     }
     fn gen_ops(&mut self, rng: &mut Rng, tier: Tier, out: &mut Emitter) {
@@ -94,19 +186,33 @@ impl Prop for C24 {
                         Some(l) if l.1 == head => "scope12/caught-up",
                         _ => "scope12/store-ahead",
                     };
+                    // the store being ahead of the subjective head is the rare situation (and the one
+                    // known finding lives there): keep a small sample of it only
+                    if tag == "scope12/store-ahead" && !rng.chance(1, 40) {
+                        continue;
+                    }
                     out.op(format!("fetch head={head} synced={sv} limit={limit}"), tag, !v.is_empty() && limit > 0);
                 }
             }
             // split into stored / pruned
             if thorough || rng.chance(1, 2) {
-                for _ in 0..(if thorough { 2 } else { 4 }) {
+                for _ in 0..(if thorough { 2 } else { 30 }) {
                     let pm = m & (rng.below(1 << n) as u32);
                     let (st, pr) = (subset(m & !pm, n), subset(pm, n));
-                    let head = rng.range(0, 13);
+                    let topv = v.last().map(|l| l.1).unwrap_or(0);
+                    let head = if rng.chance(1, 30) { rng.range(0, 13) } else { rng.range(topv, 13) };
                     let limit = rng.range(0, 13);
                     out.op(
                         format!("batch head={head} stored={} pruned={} limit={limit}", fmt_vec(&st), fmt_vec(&pr)),
                         "scope12/batch",
+                        m != 0 && limit > 0,
+                    );
+                    // the same configuration on the real Worker + real store
+                    let head = if rng.chance(1, 30) { rng.range(1, CHAIN) } else { rng.range(topv.max(1), CHAIN) };
+                    let limit = *rng.pick(&[0, 1, 2, 3, 5, 8, 13, 512]);
+                    out.op(
+                        format!("worker head={head} stored={} pruned={} limit={limit}", fmt_vec(&st), fmt_vec(&pr)),
+                        if pm == 0 { "worker/nothing-pruned" } else { "worker/pruned" },
                         m != 0 && limit > 0,
                     );
                 }
@@ -133,7 +239,12 @@ impl Prop for C24 {
                 }
             }
             for _ in 0..6 {
-                let head = *rng.pick(&heads);
+                let mut head = *rng.pick(&heads);
+                if let Some(l) = v.last() {
+                    if l.1 > head && !rng.chance(1, 25) {
+                        head = l.1.saturating_add(rng.range(0, 3) * rng.range(0, 400));
+                    }
+                }
                 let limit = match rng.below(6) {
                     0 => 0,
                     1 => 1,
@@ -163,6 +274,17 @@ impl Prop for C24 {
                 let Ok(rs) = BlockRanges::from_vec(v.into_iter().collect()) else { return "load-err".into() };
                 show(hook::calculate_range_to_fetch(h, rs.as_ref(), l))
             }
+            "worker" => {
+                let (Some(h), Some(st), Some(pr), Some(l)) = (
+                    arg_u64(line, "head"),
+                    arg(line, "stored").and_then(parse_ranges),
+                    arg(line, "pruned").and_then(parse_ranges),
+                    arg_u64(line, "limit"),
+                ) else {
+                    return "bad-op".into();
+                };
+                self.worker(h, st, pr, l)
+            }
             "batch" => {
                 let (Some(h), Some(st), Some(pr), Some(l)) = (
                     arg_u64(line, "head"),
@@ -182,6 +304,9 @@ impl Prop for C24 {
         }
     }
     fn result_tag(&self, _line: &str, result: &str) -> Option<String> {
+        if result.starts_with("req ") {
+            return Some(if result.ends_with("insert=ok") { "req-inserted".into() } else { "req-not-inserted".into() });
+        }
         Some(match result.split_once('-') {
             Some((a, b)) => match (a.parse::<u64>(), b.parse::<u64>()) {
                 (Ok(a), Ok(b)) if a <= b => "batch".to_string(),
@@ -194,5 +319,5 @@ impl Prop for C24 {
 }
 
 fn main() {
-    main_for(C24);
+    main_for(C24::new());
 }
